@@ -16,7 +16,63 @@ const (
 
 // CrossProduct for three Point64 (pt1->pt2 x pt2->pt3)
 func CrossProduct(pt1, pt2, pt3 Point64) float64 {
-	return float64((pt2.X-pt1.X)*(pt3.Y-pt2.Y) - (pt2.Y-pt1.Y)*(pt3.X-pt2.X))
+	return productDiff(pt2.X-pt1.X, pt3.Y-pt2.Y, pt2.Y-pt1.Y, pt3.X-pt2.X)
+}
+
+// productDiff returns a*b - c*d. Coordinate differences reach 2^62, so the
+// products are formed in 128 bits; the difference is exact (in particular its
+// sign and whether it is zero) and is rounded once on conversion to float64.
+func productDiff(a, b, c, d int64) float64 {
+	const small = 1 << 31
+	if a > -small && a < small && b > -small && b < small && c > -small && c < small && d > -small && d < small {
+		return float64(a*b - c*d)
+	}
+	return productSum(a, b, c, -d)
+}
+
+// productSum returns a*b + c*d, exactly as for productDiff (|d| < 2^63).
+func productSum(a, b, c, d int64) float64 {
+	abs := func(v int64) uint64 {
+		if v < 0 {
+			return uint64(-v)
+		}
+		return uint64(v)
+	}
+	toFloat := func(v UInt128Struct) float64 {
+		return float64(v.Hi64)*18446744073709551616.0 + float64(v.Lo64)
+	}
+	p1 := multiplyUInt64(abs(a), abs(b))
+	p2 := multiplyUInt64(abs(c), abs(d))
+	neg1 := (a < 0) != (b < 0)
+	neg2 := (c < 0) != (d < 0)
+	if neg1 == neg2 {
+		// same sign: magnitudes add (the sum is below 2^127 for differences up to 2^62)
+		lo := p1.Lo64 + p2.Lo64
+		hi := p1.Hi64 + p2.Hi64
+		if lo < p1.Lo64 {
+			hi++
+		}
+		r := toFloat(UInt128Struct{Lo64: lo, Hi64: hi})
+		if neg1 {
+			return -r
+		}
+		return r
+	}
+	// opposite signs: subtract the smaller magnitude from the larger
+	if p1.Hi64 < p2.Hi64 || (p1.Hi64 == p2.Hi64 && p1.Lo64 < p2.Lo64) {
+		p1, p2 = p2, p1
+		neg1 = neg2
+	}
+	lo := p1.Lo64 - p2.Lo64
+	hi := p1.Hi64 - p2.Hi64
+	if p1.Lo64 < p2.Lo64 {
+		hi--
+	}
+	r := toFloat(UInt128Struct{Lo64: lo, Hi64: hi})
+	if neg1 {
+		return -r
+	}
+	return r
 }
 
 func checkPrecision(precision int) {
